@@ -76,7 +76,13 @@ class C04:
         if kind == "edits":
             n = sc.choice([0, sc.randint(1, 10), sc.randint(5, 60), sc.randint(30, 300)])
             scale = 2 if (tier == "thorough" and w.random() < 0.5) else 1
-            base.update(wl=sched.gen_workload(w, scale=scale), opw=sched.gen_opw(sc), schedule=sched.gen_schedule(sc, n),
+            wl = sched.gen_workload(w, scale=scale)
+            if w.random() < 0.12:
+                # lazily expanded collections (the plist root edit, fixed-key dictionaries) observed WHILE they expand:
+                # mappings with lists / mappings as values, matcher without key pre-matching
+                wl = sched.gen_workload(w, families=("plist", "plist", "json"), scale=scale)
+                wl["opts"] = dict(wl["opts"], auto_match_keys=w.random() < 0.4, allow_key_edits=w.random() < 0.6)
+            base.update(wl=wl, opw=sched.gen_opw(sc), schedule=sched.gen_schedule(sc, n),
                         quiet0=env.random() < 0.4, clock=env.choice(["frozen", "1ms", "3s"]))
             return base
         if kind == "matcher":
